@@ -108,7 +108,7 @@ func feeWorld(t *testing.T, res *vh.Result, tr *vh.Trace, wi int, phases, perPha
 	e := net.Executor(t, n.bc)
 	magic := uint32(n.bc.GetConfig().Magic)
 	gasH, polH := e.NativeHash(t, nativenames.Gas), e.NativeHash(t, nativenames.Policy)
-	tr.Emit(map[string]any{"event": "init", "world": o.w})
+	o.wi = openWorld(tr, o.w, nil)
 	accts := []*facct{newFacct("s1", false, 1, 1), newFacct("s2", false, 1, 1), newFacct("m11", true, 1, 1), newFacct("m23", true, 2, 3), newFacct("m34", true, 3, 4)}
 	byName := map[string]*facct{}
 	for _, a := range accts {
@@ -197,7 +197,7 @@ func feeWorld(t *testing.T, res *vh.Result, tr *vh.Trace, wi int, phases, perPha
 				}
 				return tx
 			}
-			ev := map[string]any{"event": "fee", "node": n.name, "cfg": n.keep, "srv": s.name, "world": o.w, "phase": ph, "case": fc.label(), "fpb": fpb,
+			ev := map[string]any{"event": "fee", "w": o.wi, "node": n.name, "cfg": n.keep, "srv": s.name, "world": o.w, "phase": ph, "case": fc.label(), "fpb": fpb,
 				"exec": n.bc.GetBaseExecFee(), "direct": direct}
 			// 1. the fee calculator, through the client and as a raw request (the transaction signed or with empty invocations)
 			probe := build(0, !fc.unsig)
